@@ -372,7 +372,7 @@ func c11cases() []c11case {
 func TestC11(t *testing.T) {
 	rep := lib.NewReport("C11", "model_checking")
 	defer rep.Finish(t)
-	rep.Rule = "for every assignment of contents {absent,h1,h2(,h3)} to (split, path) over 1..3(4) splits uploaded one fake second apart (split IDs co- and counter-ordered with time) x 4 conflict modes: the real Diamond.Commit runs with the Gets of all split index files gated and the DFS releases them in every permutation; oracle = specification of the merge (latest upload wins; losers kept under their uploader; identical content never a conflict; forbid fails iff conflict; flags) + a 1-split diamond equals a plain upload; plus two splits with an overlapping path uploading CONCURRENTLY (blob and vmetadata calls gated, one entry per split index file through the verif hook, one fake second per call, all interleavings within the preemption bound) then a commit: recorded upload times lie between the file's blob write and the split's completion, and the later upload of the shared path wins; plus commits of 2..3 completed splits (1..2 files each, one index file per entry; every other case preceded by a split that completed with no file) with every listing page size 1..10: all files of all splits; distinct = distinct (case, committed entry set)"
+	rep.Rule = "for every assignment of contents {absent,h1,h2(,h3)} to (split, path) over 1..3(4) splits uploaded one fake second apart (split IDs co- and counter-ordered with time) x 4 conflict modes: the real Diamond.Commit runs with the Gets of all split index files gated and the DFS releases them in every permutation; oracle = specification of the merge (latest upload wins; losers kept under their uploader; identical content never a conflict; forbid fails iff conflict; flags) + a 1-split diamond equals a plain upload; plus two splits with an overlapping path uploading CONCURRENTLY (blob and vmetadata calls gated, one entry per split index file through the verif hook, one fake second per call, all interleavings within the preemption bound) then a commit: recorded upload times lie between the file's blob write and the split's completion, and the later upload of the shared path wins; plus commits of 2..3 completed splits (1..2 files each, one index file per entry; every other case preceded by a split that completed with no file) with every listing page size 1..10: all files of all splits; plus, for every conflicting assignment of {absent,c1,c2} to 2 splits x 2 paths, a commit refused in forbid mode followed by a second commit on the same Diamond object switched to ignore mode / on a fresh one in each other mode: the bundle equals the one a first commit in that mode gives; distinct = distinct (case, committed entry set)"
 	cases := c11cases()
 	hashes := c11hash(nil)
 	parent := lib.RunCases(t, rep, "TestC11", len(cases), 0, 120*time.Second, func(i int) {
@@ -398,7 +398,118 @@ func TestC11(t *testing.T) {
 		rep.Sample(map[string]interface{}{"case": cases[len(cases)/2].String()})
 		c11timing(t, rep)
 		c11pages(t, rep, "C11")
+		c11recommit(t, rep)
 	}
+}
+
+// c11recommit: a commit refused in forbid mode leaves the diamond open; committing again - on the SAME Diamond object
+// with its mode switched, or on a fresh object - must give exactly the bundle a first commit in that mode gives
+// (differential oracle: the same splits committed once, directly in that mode, in a fresh world).
+func c11recommit(t *testing.T, rep *lib.Report) {
+	n := 0
+	paths := []string{"p", "q"}
+	build := func(assign []int) (st context2.Stores, diamondID string) {
+		w := NewWorld()
+		w.Blob.NoJournal = true
+		st = w.Stores()
+		if err := mkRepo(st, "r"); err != nil {
+			panic(err)
+		}
+		dd, err := core.CreateDiamond("r", st, core.DiamondLogger(nopLogger))
+		if err != nil {
+			panic(err)
+		}
+		for s := 0; s < 2; s++ {
+			time.Sleep(time.Second)
+			files := map[string][]byte{}
+			for i, p := range paths {
+				if cn := assign[s*len(paths)+i]; cn > 0 {
+					files[p] = []byte(fmt.Sprintf("content #%d", cn))
+				}
+			}
+			if err := splitAdd(st, "r", dd.DiamondID, fmt.Sprintf("s%d", s), files); err != nil {
+				panic(err)
+			}
+		}
+		time.Sleep(time.Second)
+		return st, dd.DiamondID
+	}
+	newD := func(st context2.Stores, id string, mode model.ConflictMode) *core.Diamond {
+		diamond, err := core.GetDiamond("r", id, st, core.DiamondLogger(nopLogger))
+		if err != nil {
+			panic(err)
+		}
+		d := core.NewDiamond("r", st, core.DiamondDescriptor(model.NewDiamondDescriptor(model.DiamondClone(diamond), model.DiamondMode(mode))),
+			core.DiamondMessage("commit"), core.DiamondLogger(nopLogger))
+		d.BundleDescriptor.LeafSize = c11L
+		return d
+	}
+	for a := 0; a < 81; a++ {
+		assign := []int{a % 3, a / 3 % 3, a / 9 % 3, a / 27 % 3}
+		conflict := false
+		for i := range paths {
+			if assign[i] > 0 && assign[len(paths)+i] > 0 && assign[i] != assign[len(paths)+i] {
+				conflict = true
+			}
+		}
+		if !conflict {
+			continue
+		}
+		for _, mode := range []model.ConflictMode{model.IgnoreConflicts, model.EnableConflicts, model.EnableCheckpoints} {
+			for _, same := range []bool{true, false} {
+				if same && mode != model.IgnoreConflicts {
+					continue // the path generator for losing versions is bound to the mode at construction: only ignore mode can be switched to
+				}
+				assign, mode, same := assign, mode, same
+				lib.Bubble(t, func() {
+					desc := fmt.Sprintf("splits s0,s1 over (p,q) = %v, commit refused in forbid mode, then committed in mode %s on %s", assign, mode, map[bool]string{true: "the same Diamond object", false: "a fresh Diamond object"}[same])
+					rp := map[string]interface{}{"assignment": assign, "mode": string(mode), "same_object": same}
+					rep.Eval(1)
+					n++
+					// reference: committed once, directly in that mode
+					rst, rid := build(assign)
+					rd := newD(rst, rid, mode)
+					if err := rd.Commit(); err != nil {
+						rep.Violate("C11|recommit|reference-commit-fails", desc+": "+err.Error(), rp)
+						return
+					}
+					want, err := bundleEntries(rst, "r", rd.BundleID)
+					if err != nil {
+						rep.Violate("C11|recommit|bundle-unreadable", desc+": reference: "+err.Error(), rp)
+						return
+					}
+					st, id := build(assign)
+					d := newD(st, id, model.ForbidConflicts)
+					if err := d.Commit(); err == nil {
+						rep.Violate("C11|recommit|forbid-did-not-refuse", desc, rp)
+						return
+					}
+					if after, err := core.GetDiamond("r", id, st, core.DiamondLogger(nopLogger)); err != nil || after.State != model.DiamondInitialized {
+						rep.Violate("C11|recommit|diamond-not-open-after-refusal", fmt.Sprintf("%s: %+v %v", desc, after, err), rp)
+						return
+					}
+					if same {
+						d.DiamondDescriptor.Mode = mode
+					} else {
+						d = newD(st, id, mode)
+					}
+					if err := d.Commit(); err != nil {
+						rep.Violate("C11|recommit|second-commit-fails|same-object="+fmt.Sprint(same), desc+": "+err.Error(), rp)
+						return
+					}
+					got, err := bundleEntries(st, "r", d.BundleID)
+					if err != nil {
+						rep.Violate("C11|recommit|bundle-unreadable", desc+": "+err.Error(), rp)
+						return
+					}
+					if fmt.Sprint(got) != fmt.Sprint(want) {
+						rep.Violate("C11|recommit|bundle-differs-from-a-first-commit|same-object="+fmt.Sprint(same), fmt.Sprintf("%s: bundle %v, a first commit in that mode gives %v", desc, got, want), rp)
+					}
+				})
+			}
+		}
+	}
+	rep.Set("recommit_cases", n)
 }
 
 // c11pages: a commit lists the diamond's splits page by page; every page size from 1 to 10 (and splits with 0..2 index
